@@ -8,6 +8,12 @@ import Driver.Util
   * `canon <shape> <aff12> <R9> <tol> <dim> <enforce>`    as_closest_canonical (polar factor R supplied)
   * `ioor <q> <p> <Rflat> <tol>`                          io_orientation from R onward
   * `orn2ax <ornt>` / `ax2orn <codes>` / `otrans <a> <b>` / `invaff <ornt> <shape>`
+  * `hslice` / `hreor` / `hcanon` = the three above + `<kind> <hist>`: the image kind (`p` proxy, `a` array
+    image, `a2|a4|a8` array image whose array has that native floating dtype) and the calls made on the
+    image before the operation (`-` or `;`-separated: `u` = uncache(), `g<2|4|8><f|u><e|->` =
+    get_fdata(dtype=float16|32|64, caching='fill'|'unchanged') followed (`e`) by the in-place reversal of
+    the returned array).  Output: as the base op, the data list being the ORIGINAL element number each
+    output voxel holds, then ` cache=<none|f2|f4|f8>[a]` (a = the cache is the data object).
   ornt = rows `ax,flip` or `nan` separated by `;`.  idx items as in C06 (`sA,B,C`, `iN`, `n`, `e`). -/
 namespace Nb.Drv.C05
 open Nb Nb.C05 Nb.C06
@@ -80,7 +86,71 @@ def reorAcceptable (o : OrntN) : Bool :=
   | none => o.length == 3
   | some oo => oo.length == 3 && oo.valid
 
+def parseFD? (c : Char) : Option FD :=
+  if c = '2' then some .f2 else if c = '4' then some .f4 else if c = '8' then some .f8 else none
+
+def parseKind? (s : String) : Option (Bool × Option FD) :=
+  if s = "p" then some (true, none)
+  else if s = "a" then some (false, none)
+  else if s = "a2" then some (false, some .f2)
+  else if s = "a4" then some (false, some .f4)
+  else if s = "a8" then some (false, some .f8)
+  else none
+
+def parseHStep? (s : String) : Option HStep :=
+  match s.toList with
+  | ['u'] => some .uncache
+  | ['g', d, c, e] =>
+      match parseFD? d, (if c = 'f' then some true else if c = 'u' then some false else none),
+            (if e = 'e' then some true else if e = '-' then some false else none) with
+      | some dt, some fill, some edit => some (.getFdata dt fill edit)
+      | _, _, _ => none
+  | _ => none
+
+def parseHist? (s : String) : Option (List HStep) :=
+  if s = "-" then some [] else (s.splitOn ";").mapM parseHStep?
+
+def showCache : Option FCache → String
+  | none => "cache=none"
+  | some c => "cache=" ++ (match c.dt with | .f2 => "f2" | .f4 => "f4" | .f8 => "f8") ++ (if c.alias then "a" else "")
+
+/-- the image after the history: kind, number of elements, steps -/
+def histState (kind : Bool × Option FD) (shape : List Nat) (h : List HStep) : ImgSt :=
+  (ImgSt.init kind.1 kind.2 (shape.foldl (· * ·) 1)).run h
+
+def showReorH (shape : List Nat) (r : ReorOut) (st : ImgSt) : String :=
+  "same=" ++ (if r.same then "1" else "0") ++ " " ++ showList r.shape ++ " " ++ showList r.affine.toList ++
+    " " ++ showList (st.values (r.data shape)) ++ " " ++ showDim r.dimInfo ++ " " ++ showCache st.cache
+
 def handle : List String → String
+  | ["hslice", shape, aff, idx, kind, hist] =>
+      match parseNatList? shape, parseAff? aff, parseIdx? idx, parseKind? kind, parseHist? hist with
+      | some shape, some A, some idx, some kind, some hist =>
+          match slicer A shape idx with
+          | .ok o =>
+              let st := histState kind shape hist
+              "ok " ++ showList o.shape ++ " " ++ showList o.affine.toList ++ " " ++
+                showList (st.values (o.data shape)) ++ " " ++ showCache st.cache
+          | .error e => showErr e
+      | _, _, _, _, _ => "bad-op"
+  | ["hreor", shape, aff, ornt, dim, kind, hist] =>
+      match parseNatList? shape, parseAff? aff, parseOrntN? ornt, parseDim? dim, parseKind? kind, parseHist? hist with
+      | some shape, some A, some o, some d, some kind, some hist =>
+          if !reorAcceptable o || shape.length < 3 then "bad-op" else
+          match asReoriented A shape d o with
+          | .ok r => "ok " ++ showReorH shape r (histState kind shape hist)
+          | .error e => showErr e
+      | _, _, _, _, _, _ => "bad-op"
+  | ["hcanon", shape, aff, rr, tol, dim, enf, kind, hist] =>
+      match parseNatList? shape, parseAff? aff, parseIntList? rr, tol.toNat?, parseDim? dim,
+            (if enf = "0" then some false else if enf = "1" then some true else none), parseKind? kind,
+            parseHist? hist with
+      | some shape, some A, some rr, some tol, some d, some enf, some kind, some hist =>
+          if rr.length ≠ 9 || shape.length < 3 then "bad-op" else
+          match asClosestCanonical A shape d (toRows 3 3 rr) tol enf with
+          | .ok (o, r) => "ok " ++ showOrntN o ++ " " ++ showReorH shape r (histState kind shape hist)
+          | .error e => showOrntN (ioOrientation (toRows 3 3 rr) 3 tol) ++ " " ++ showErr e
+      | _, _, _, _, _, _, _, _ => "bad-op"
   | ["slice", shape, aff, idx] =>
       match parseNatList? shape, parseAff? aff, parseIdx? idx with
       | some shape, some A, some idx =>
